@@ -115,6 +115,10 @@ def ensure_facts(cfgs, repo=None, log=None):
     h, nfiles = source_hash(repo)
     base = os.path.join(CACHE, 'facts', h)
     os.makedirs(base, exist_ok=True)
+    try:
+        os.utime(base, None)      # (the eviction below keeps the most recently USED fact directories)
+    except OSError:
+        pass
     slot = os.environ.get('DC_TARGET_SLOT', '')
     lock_path = os.path.join(CACHE, 'extract%s.lock' % slot)
     with open(lock_path, 'w') as lf:
